@@ -44,7 +44,8 @@ EvChecks(ev, t) ==
                                             { i \in 1 .. NEp(st) : st.bondT[ev.actor] # "none" /\ st.bondT[ev.actor] \prec st.eps[i].start })
                                 \o << <<"drift.claim.reward=floor(total*share)", ImplRewards(ev, t)>> >>
           ELSE Untouched(t)
-     [] ev.ev \in {"bond", "unbond", "tick", "setgrace"} -> Untouched(t)
+     \* setasset: the owner switches the distribution asset; the ledgers of every asset stay as they are
+     [] ev.ev \in {"bond", "unbond", "tick", "setgrace", "setasset"} -> Untouched(t)
      [] OTHER -> << <<"TRACE.unknown-event", FALSE>> >>)
   \o Common(ev, t)
 
